@@ -9,6 +9,7 @@ hypothesis that strconv accepts that text (`fp.ok s`); float parsing itself is t
 Go maps are modelled by their assignment log; `lookupLast` is the map.
 -/
 import Rv.Lemmas.AccShape
+import Rv.Lemmas.AccConv
 namespace Rv.C16
 open Rv Rv.Acc Rv.Shapes
 
@@ -312,5 +313,62 @@ theorem intslice_order (p : Proto) (xs : List Int)
   simpa using this
 
 theorem toArray_order (xs : List Msg) : toArray (arr xs) = .ok xs := toArray_arr xs
+
+/-! ## scalar conversions: the model agrees with the declarative specification -/
+
+open Rv.Conv in
+/-- every scalar conversion of the model agrees with Rv/Spec/Conv.lean on `m` -/
+structure ConvAgree (fp : FP) (m : Msg) : Prop where
+  toString : Agree (toStr m) (specToString m)
+  asBytes : Agree (asBytes m) (specToString m)
+  asBool : Agree (asBool m) (specAsBool m)
+  toBool : Agree (Acc.toBool m) (specToBool m)
+  toInt64 : Agree (toInt64 m) (specToInt64 m)
+  toFloat64 : Agree (toFloat64 fp m) (specToFloat64 fp m)
+  asInt64 : Agree (asInt64 m) (specAsInt64 m)
+  asUint64 : Agree (asUint64 m) (specAsUint64 m)
+  asFloat64 : Agree (asFloat64 fp m) (specAsFloat64 fp m)
+  asStrSlice : Agree (asStrSlice m) (specAsStrSlice m)
+  asIntSlice : Agree (asIntSlice m) (specAsIntSlice m)
+  asFloatSlice : Agree (asFloatSlice fp m) (specAsFloatSlice fp m)
+  asBoolSlice : Agree (asBoolSlice m) (specAsBoolSlice m)
+
+open Rv.Conv in
+/-- For every reply in the decoder's range whose elements (if it is an array) are scalars, the model
+    of the code (which follows message.go's switch statements) and the declarative conversion rules
+    of Rv/Spec/Conv.lean give the same result: same value, same error, and a strconv error exactly
+    where the specification says "not a number". In particular integer → bool is `n ≠ 0`. An edit of
+    the model (or a regenerated model of edited code) that changes a conversion breaks this theorem;
+    the harness's `!conv` lines check the real code against the same specification. -/
+theorem model_conv_eq_spec (fp : FP) (m : Msg) (h : InRange m)
+    (helems : ∀ v ∈ m.arr, InRange v ∧ ¬ isAggK v) : ConvAgree fp m where
+  toString := toStr_agree m h
+  asBytes := toStr_agree m h
+  asBool := asBool_agree m
+  toBool := toBool_agree m
+  toInt64 := toInt64_agree m
+  toFloat64 := toFloat64_agree fp m
+  asInt64 := asInt64_agree m h
+  asUint64 := asUint64_agree m h
+  asFloat64 := asFloat64_agree fp m h
+  asStrSlice := asStrSlice_agree m
+  asIntSlice := asIntSlice_agree m helems
+  asFloatSlice := asFloatSlice_agree fp m helems
+  asBoolSlice := asBoolSlice_agree m
+
+/-- the specification itself: an integer reply converts to true exactly when it is non-zero -/
+theorem spec_int_to_bool (i : Int) :
+    Conv.specAsBool (Msg.leafInt 58 i) = .ok (decide (i ≠ 0)) := by
+  simp [Conv.specAsBool, Conv.replyError, Conv.isNullK, Conv.isErrK, Conv.isStrK, Conv.isIntK, Msg.leafInt, Msg.typ, Msg.int]
+  by_cases h : i = 0 <;> simp [h]
+
+/-- e.g. `:2` and `:-1` are true, `:0` is false (the inputs a `== 1` conversion gets wrong) -/
+example : Conv.specAsBool (Msg.leafInt 58 2) = .ok true ∧ Conv.specAsBool (Msg.leafInt 58 (-1)) = .ok true ∧
+    Conv.specAsBool (Msg.leafInt 58 0) = .ok false ∧ asBool (Msg.leafInt 58 2) = .ok true := by
+  refine ⟨?_, ?_, ?_, ?_⟩ <;> rfl
+
+/-- non-vacuity of `InRange` -/
+example : Conv.InRange (Msg.leafInt 58 2) := by
+  constructor <;> simp [Conv.isAggK, Conv.isIntK, Conv.isBoolK, Conv.isNullK, Msg.leafInt, Msg.typ, Msg.arr, Msg.str]
 
 end Rv.C16
